@@ -83,7 +83,7 @@ def gen_random_subs(rng: random.Random, n: int, table) -> List[Dict[str, Any]]:
             row["bytes"] = list(b)
             flav = keep[fl] if i % 2 == 0 else isa.FLAVOURS[fl]()
             d = deserialize(b, flavour=flav)
-            row["dec"] = {"ver": list(d.netqasm_version), "app": d.app_id,
+            row["dec"] = {"ver": [int(x) for x in d.netqasm_version], "app": d.app_id if isinstance(d.app_id, int) else -1,      # (-1: no app id came back)
                           "instrs": [dict(zip(("mn", "ops"), isa.flatten(x))) for x in d.instructions]}
             row["err"] = ""
         except Exception as ex:  # noqa
@@ -258,6 +258,15 @@ def run(prop: str, tier: str) -> int:
                             if expect is None:
                                 continue
                             got = [dict(zip(("mn", "ops"), isa.flatten(x))) for x in d.instructions]
+                            if got == expect and k % 2 == 0:
+                                # what a decode returns belongs to the caller: the decoded instructions are rewritten in place
+                                # (as a transpiler does) before the same bytes are decoded again
+                                try:
+                                    for x_, v_ in zip(d.instructions, grp):
+                                        sh_ = table[fl][v_["n"] - 1]["shape"]
+                                        isa.mutate(x_, sh_, [((o + 1) % 16 if isinstance(o, int) and 0 <= o < 16 else o) for o in v_["ops"]])
+                                except Exception:
+                                    pass
                             if got != expect or d.app_id != k % 200:
                                 V.add("decode-depends-on-history", {"fl": fl, "path": pname, "what": "differs"},
                                       f"{pname}: sent {want} (app {k % 200}) got {got} (app {d.app_id}) after a rejected input",
